@@ -250,6 +250,21 @@ class C19(Prop):
                         c = emit(single(m, T))
                         if c:
                             yield c
+        # large positive offsets (1, 2, 3, 4, 8 MiB and one of 16 MiB; 3 and 5 MiB + a page): reachable => exact, however much
+        # padding that takes (the padding of one step must be as long as the step asks for: C19_Model pad_loop_src)
+        MiB = 2 ** 20
+        for ty in range(5):
+            for j, off in enumerate((1 * MiB, 2 * MiB, 3 * MiB, 3 * MiB + 4096, 4 * MiB, 5 * MiB + 4096, 8 * MiB)):
+                n0 = (0, 1, 128, 16384, 2 ** 21 + 3, 0, 127)[(ty + j) % 7]
+                m = msg(ty, (-1, 20, 125)[(ty + j) % 3], ty == 4, n0)
+                for o in ((-1, 0, 1) if not quick else ((ty + j) % 3 - 1, 0)):
+                    c = emit(single(m, L + off + o))
+                    if c:
+                        yield c
+        yield ["c19.expand", [msg(rng.randrange(5), 20, False, 0)], [[16 * MiB]]]
+        yield ["c19.expand", [msg(rng.randrange(5), -1, False, 6 * MiB)], [[3 * MiB + 7]]]     # trimmed down to a large size
+        yield ["c19.expand", [msg(rng.randrange(5), -1, False, 6 * MiB)], [[9 * MiB]]]         # topped up by 3 MiB
+
         # both ends of the admissible range of the target
         for m in rng.sample(combos, 20):
             for o in win:
@@ -334,6 +349,21 @@ class C19(Prop):
         for side, hv, p, c, st, f in cfgs:
             for off in offs + ((-2, 2, 10) if not quick else ()):
                 yield ["c19.sharp", side, off, hv, p, c, st, f]
+        # the client's limit is on the message WHATEVER the codec of the RPC (8th argument: 1 = proto, 2 = JSON): under JSON
+        # the response is sized so that its JSON encoding - what the limit then applies to - has limit-1, limit, limit+1 bytes
+        if quick:
+            jc = [(2, p, 1, st, 0) for p in (1, 2, 3) for st in (1, 3)]
+            jc += [(2, p, rng.choice(COMPRESSIONS[1:]), rng.choice((1, 3)), 0) for p in (1, 2, 3)]
+            jc += [(1, 1, 1, 1, 0), (1, 3, 1, 3, 0), (2, rng.choice((1, 2, 3)), 1, rng.choice((1, 3)), 1)]
+        else:
+            jc = [(hv, p, c, st, f) for hv in (1, 2) for p in (1, 2, 3) for c in COMPRESSIONS for st in (1, 3)
+                  for f in ((0, 1) if c == 1 else (0,)) if not (hv == 1 and p == 2)]
+        for hv, p, c, st, f in jc:
+            for off in offs + ((-2, 2, 10) if not quick else ()):
+                yield ["c19.sharp", 1, off, hv, p, c, st, f, 2]
+        for hv, p, c, st, f in (jc[:2] if quick else jc[::5]):           # the same form with the binary codec named
+            for off in offs:
+                yield ["c19.sharp", 1, off, hv, p, c, st, f, 1]
 
         # ---- the limit is per message: several sized messages per RPC ----
         # case: side (offs) sender httpVersion protocol compression streamType fill
@@ -443,6 +473,38 @@ class C19(Prop):
                       if not (c[0] == 0 and c[2] == 0 and c[6] != 5 and len(c[1]) * (L + 64) > lim["client"])]
         for side, pat, sender, hv, p, c, st, f in st_cases + long_cases:
             yield ["c19.stream", side, list(pat), sender, hv, p, c, st, f]
+        # 10-argument form: ... codec def
+        #   codec 2 (side 1): response streams under the JSON codec, every message sized in its JSON encoding
+        #   def 1 (side 0, client stream): the response definition in the FIRST request asks for an error response; a later
+        #   message above the limit must still be answered resource_exhausted (outcome 2), not with the defined error
+        ext = []
+        rot3 = [0]
+
+        def nx3(seq):
+            rot3[0] += 1
+            return seq[rot3[0] % len(seq)]
+        jpats = PATS if not quick else ([0, 0], [0, 1], [1, 0], [0, 0, 1], [-1, 0, 0])
+        for st in (3, 4):
+            for hv in (1, 2):
+                for p in protos(hv):
+                    for pat in jpats:
+                        cs = COMPRESSIONS if not quick else (1, nx3(COMPRESSIONS[1:])) if pat == [0, 1] else (nx3((1, 1, 2)),)
+                        for c in cs:
+                            ext.append((1, pat, 0, hv, p, c, st, 0, 2, 0))
+        ext.append((1, [0, 0], 0, 2, 1, 1, 5, 0, 2, 0))
+        ext.append((1, [0, 1], 0, 2, 2, 1, 3, 1, 2, 0))
+        ext.append((1, [0, 1], 0, 2, 1, 1, 3, 0, 1, 0))
+        dpats = [[0, 0], [0, 1], [1, 0], [0, 0, 1], [0, 1, 0], [-1, 1], [0, 0, 0]] + ([] if quick else [[1, 1], [0, 0, 0, 1], [0, 10]])
+        for sender in (1, 2):      # (the error response echoes every request: too large for the reference client's own limit)
+            for hv in (1, 2):
+                for p in protos(hv):
+                    for pat in dpats:
+                        cs = COMPRESSIONS if not quick else (nx3((1, 1, 2)),)
+                        for c in cs:
+                            ext.append((0, pat, sender, hv, p, c, 2, 0, 1, 1))
+                ext.append((0, [0, 1], sender, hv, 1, 1, 2, 0, 1, 0))       # data definition, same form
+        for side, pat, sender, hv, p, c, st, f, codec, d in ext:
+            yield ["c19.stream", side, list(pat), sender, hv, p, c, st, f, codec, d]
 
         # ---- the loader: which test cases of a suite file get expanded ----
         # case: flag mode (codecs) ((streamType (msgs) (dirs))...)
